@@ -37,6 +37,20 @@ Theorem C07_mro_eq_cpython : forall t c, ordered t -> c < List.length t ->
 Proof. exact mro_eq_cpython. Qed.
 Print Assumptions C07_mro_eq_cpython.
 
+(* Eliding `object` is sound.  Merge level: appending a common last element o to the linearisations (not to the
+   bases list) appends o to the result and preserves failure.  Table level: CPython's MRO with `object` spelled
+   out is the elided MRO followed by `object`, with the same TypeErrors. *)
+Theorem C07_merge_object_elision : forall o ms bs, ms <> [] -> (forall l, In l ms -> ~ In o l) -> ~ In o bs ->
+  (forall b, In b bs -> exists l, In l ms /\ In b l) ->
+  c3linear_merge (map (fun l => l ++ [o]) ms ++ [bs]) = add_obj o (c3linear_merge (ms ++ [bs])).
+Proof. exact object_elision. Qed.
+Print Assumptions C07_merge_object_elision.
+
+Theorem C07_mro_object_elision : forall t c, ordered t -> c < List.length t ->
+  cpython_mro_obj t c = add_obj (List.length t) (cpython_mro t c).
+Proof. exact cpython_mro_obj_eq. Qed.
+Print Assumptions C07_mro_object_elision.
+
 (* Arbitrary tables (cycles, self-bases, unresolvable bases): the recursion of _mro stops within #classes + 1
    levels, and a class that reaches an inheritance cycle is reported as uncomputable. *)
 Theorem C07_cycle_reported_not_looped : forall t c, c < List.length t ->
